@@ -20,8 +20,10 @@ sys.path.insert(0, os.environ.get("VERIF_REPO", "/repo"))
 
 
 def ics(uid, n=0):
+    # version 1 carries text that must survive every representation: non-BMP, XML metacharacters
+    extra = "" if n == 0 else " \U0001F600 é & <b> ]]>"
     return (f"BEGIN:VCALENDAR\r\nVERSION:2.0\r\nPRODID:-//x//y//EN\r\nBEGIN:VEVENT\r\nUID:{uid}\r\n"
-            f"DTSTAMP:20200101T000000Z\r\nDTSTART:20200101T000000Z\r\nSUMMARY:v{n}\r\nEND:VEVENT\r\nEND:VCALENDAR\r\n").encode()
+            f"DTSTAMP:20200101T000000Z\r\nDTSTART:20200101T000000Z\r\nSUMMARY:v{n}{extra}\r\nEND:VEVENT\r\nEND:VCALENDAR\r\n").encode()
 
 
 class Server:
@@ -318,6 +320,23 @@ def model_run(hist, prefix=""):
                 if len(mine) != 1 or b"200 OK" not in mine[0] or M[n][1].encode().replace(b'"', b"&quot;") not in mine[0].replace(b'"', b"&quot;"):
                     return dict(step=step, expected=f"multiget answers {h.decode()} once with 200 and etag {M[n][1]}",
                                 observed=(mine[0][:200].decode("utf-8", "replace") if mine else "no response"), log=log)
+            # C11 / C17: the calendar-data of every answer is the resource's content (what GET serves)
+            from xml.etree import ElementTree as ET
+
+            try:
+                ms = ET.fromstring(mg["body"])
+            except ET.ParseError as e:
+                return dict(step=step, expected="multiget body is well-formed XML", observed=str(e), log=log)
+            for r_ in ms.findall("{DAV:}response"):
+                href = urllib.parse.unquote(r_.find("{DAV:}href").text)
+                cd = r_.find(".//{urn:ietf:params:xml:ns:caldav}calendar-data")
+                if cd is None:
+                    continue
+                g = s.request("GET", urllib.parse.quote(href[len(prefix):]))
+                # (an XML parser normalises CRLF to LF: compared modulo line endings)
+                if g["status"] == 200 and (cd.text or "").replace("\r\n", "\n") != g["body"].decode("utf-8").replace("\r\n", "\n"):
+                    return dict(step=step, expected=f"calendar-data of {href} equals the body GET serves",
+                                observed=f"calendar-data {cd.text!r:.200} vs GET {g['body'].decode('utf-8')!r:.200}", log=log)
         return None
     finally:
         s.close()
